@@ -122,7 +122,7 @@ def merge(scns, tracefile):
     for s in scns:
         r = by[s["scn"]]
         if s["meta"].get("adaptive"):     # the schedule the harness chose becomes the scenario's explicit schedule (replay files are self-contained)
-            s["calls"] = [[c["ai"], c["ao"], c["flush"], c["eos"]] for c in r["calls"] + ([r["fault"]] if "fault" in r and "ao" in r["fault"] else [])]
+            s["calls"] = [[c["ai"], c["ao"], c.get("flush") or 0, c.get("eos") or 0] for c in r["calls"] + ([r["fault"]] if "fault" in r and "ao" in r["fault"] else [])]
             s["tail_ai"], s["tail_ao"] = 0, 1 << 16
             s["meta"] = dict(s["meta"], adaptive=0, was_adaptive=1)
         recs.append({"scn": r["scn"], "api": r["api"], "level": r["level"], "wrap": r["wrap"], "hist_bits": r["hist_bits"], "lbuf": r["lbuf"],
